@@ -117,3 +117,117 @@ func (c *Ctx) composeReal(texts []string) map[string]CompObs {
 	}
 	return out
 }
+
+// ---- tie: the same script run through the Lean proxy model -----------------------------------
+
+func encRng(r PRng) string { return fmt.Sprintf("%d.%d.%d.%d", r.SL, r.SC, r.EL, r.EC) }
+
+func encodeOps(ops []POp) string {
+	var out []string
+	for _, o := range ops {
+		switch o.Op {
+		case "open":
+			out = append(out, fmt.Sprintf("o,%s,%s,%d", hxu([]byte(o.URI)), hxu([]byte(o.Text)), o.Version))
+		case "change":
+			out = append(out, fmt.Sprintf("c,%s,%s,%d", hxu([]byte(o.URI)), hxu([]byte(o.Text)), o.Version))
+		case "close":
+			out = append(out, "x,"+hxu([]byte(o.URI)))
+		case "save":
+			out = append(out, fmt.Sprintf("s,%s,%s", hxu([]byte(o.URI)), hxu([]byte(o.Text))))
+		case "showmsg":
+			out = append(out, "m,"+hxu([]byte(o.Message)))
+		case "pubdiag":
+			var ds []string
+			for _, d := range o.Diags {
+				ds = append(ds, encRng(d.R)+"|"+hxu([]byte(d.Msg)))
+			}
+			out = append(out, fmt.Sprintf("d,%s,%s", hxu([]byte(o.URI)), strings.Join(ds, "/")))
+		case "req":
+			var as []string
+			for _, a := range o.Answer {
+				as = append(as, hxu([]byte(a.URI))+"|"+encRng(a.R))
+			}
+			nl := "0"
+			if o.Nil {
+				nl = "1"
+			}
+			out = append(out, fmt.Sprintf("q,%s,%s,%d,%d,%s,%s,%s", o.Method, hxu([]byte(o.URI)), o.Line, o.Char, nl, hxu([]byte(o.Detail)), strings.Join(as, "/")))
+		}
+	}
+	return strings.Join(out, ";")
+}
+
+// canonProxyLine: message wording is not part of the tie: diagnostics carry the message class only.
+func canonProxyLine(l string) string {
+	if !strings.HasPrefix(l, "E diag ") {
+		return l
+	}
+	i := strings.Index(l, "[")
+	if i < 0 {
+		return l
+	}
+	body := strings.TrimSuffix(l[i+1:], "]")
+	if body == "" {
+		return l
+	}
+	var items []string
+	for _, it := range strings.Split(body, ",") {
+		p := strings.SplitN(it, "=", 3)
+		if len(p) == 3 && p[1] == "goht" {
+			p[2] = canonClass(stripPos(string(unhx(p[2]))))
+		}
+		items = append(items, strings.Join(p, "="))
+	}
+	return l[:i+1] + strings.Join(items, ",") + "]"
+}
+
+func stripPos(s string) string {
+	if strings.HasPrefix(s, "[") {
+		if i := strings.Index(s, "]: "); i >= 0 {
+			return s[i+3:]
+		}
+	}
+	return s
+}
+
+// tieProxy runs every script through the model and compares the flattened event logs.
+func (c *Ctx) tieProxy(scripts [][]POp, real [][][]PEvent) {
+	reqs := make([]string, len(scripts))
+	for i, s := range scripts {
+		reqs[i] = "P " + encodeOps(s)
+	}
+	replies := c.Drv.Map(reqs, 60*time.Second)
+	for i, r := range replies {
+		if real[i] == nil {
+			continue
+		}
+		c.Rep.TieCases++
+		var rl []string
+		for _, evs := range real[i] {
+			for _, e := range evs {
+				rl = append(rl, canonProxyLine(e.Raw))
+			}
+		}
+		var ml []string
+		if r.Err == nil && r.Line != "" {
+			for _, l := range strings.Split(r.Line, "|") {
+				ml = append(ml, canonProxyLine(l))
+			}
+		}
+		a, b := strings.Join(rl, "\n"), strings.Join(ml, "\n")
+		if a != b {
+			k := 0
+			for k < len(rl) && k < len(ml) && rl[k] == ml[k] {
+				k++
+			}
+			ri, mi := "<end>", "<end>"
+			if k < len(rl) {
+				ri = rl[k]
+			}
+			if k < len(ml) {
+				mi = ml[k]
+			}
+			c.mismatch("proxy-log", strings.Join(opsSummary(scripts[i]), " ; "), fmt.Sprintf("event %d: %s", k, clip(ri, 300)), fmt.Sprintf("event %d: %s", k, clip(mi, 300)), true)
+		}
+	}
+}
